@@ -64,7 +64,14 @@ def generate(seed, tier):
     if r0 < 0.70:
         return gen_cli_vs_api(rng, tier)
     n = rng.choice([1, 2, 2, 3, 3, 4])
-    sess = [sl.gen_session(rng, tier, i) for i in range(n)]
+    if rng.random() < 0.25:
+        # the same work twice in one process (only the directory differs): state a call leaves
+        # behind in the module is most likely to reach a later call of the same kind
+        n = rng.choice([2, 2, 3])
+        sub = rng.randrange(1 << 40)
+        sess = [sl.gen_session(random.Random(sub), tier, i) for i in range(n)]
+    else:
+        sess = [sl.gen_session(rng, tier, i) for i in range(n)]
     faults = []
     # K7 cancellation: abandon a reader half-way
     for s in sess:
